@@ -152,6 +152,16 @@ def check_case(case, ctx):
             expected = leibniz(margs[0])
             if isinstance(expected, MP):
                 expected = numpy.array(expected, dtype=object)
+        elif fn == "mean" and "where" in mkw:
+            # (numpy cannot mask a fold over objects without a start value: the masked mean written out)
+            mask = numpy.broadcast_to(numpy.asarray(mkw["where"], dtype=bool), margs[0].shape)
+            rest = {k: v for k, v in mkw.items() if k != "where"}
+            count = numpy.sum(mask, **rest)
+            if not numpy.all(count):
+                ctx.discard_case("mean-of-nothing")
+                return []
+            filled = numpy.where(mask, margs[0], MP())
+            expected = numpy.asarray(numpy.sum(filled, **rest), dtype=object) / count
         else:
             expected = getattr(numpy, rec.np_name)(*margs, **mkw)
     except Exception:
@@ -189,6 +199,9 @@ def check_case(case, ctx):
         if diff:
             return fail("value" + spc, "%s spelling: %s" % (sp, diff))
     ctx.label("fn:" + fn)
+    for key in ("where", "initial", "dtype"):
+        if key in kw:
+            ctx.label("kw:%s:%s" % (fn, key))
     ctx.label("class:%s:%s" % (fn, cls()))
     for sp in results:
         if sp not in ("numpoly", "numpy"):
